@@ -162,7 +162,8 @@ def run(chk):
     reqs, exps = [], []
     for tx in texts:
         try:
-            v = int(tx)
+            from qvm.utils import parse_int     # (the numerals READ / INPUT take for integral variables)
+            v = parse_int(tx)
             e = f'ok {v}'
         except ValueError:
             e = 'err'
@@ -204,7 +205,11 @@ def run(chk):
             tok = core.dec_str(g.split()[1])
             try:
                 fv = float(tok)
-                ok = v[0] == 'ok' and (v[2] == fv or (math.isnan(fv) and math.isnan(v[2])))
+                if math.isinf(fv):
+                    # the numeral is beyond every DOUBLE: numeric overflow (no cell holds an infinity, as repaired)
+                    ok = v == ('raises', 'Trapped')
+                else:
+                    ok = v[0] == 'ok' and v[2] == fv
             except ValueError:
                 ok = False
         elif kind == 'raises':
